@@ -12,8 +12,8 @@ def run(c, replay):
     ov = c.harness_overlay("src", FILES)
     b = c.build_test("src", ov)
     c.bounds = dict(
-        bytes=dict(alphabet="ESC [ ] ( m K ; : 0 1 3 8 a BS SO LF BEL \\ 0xC3 0xA9", max_len=c.pick(4, 5)),
-        osc_bytes=dict(prefix="ESC ]", alphabet="0 8 ; : a SP ESC \\ BEL LF BS 0xC3", max_len_after_prefix=c.pick(5, 6)),
+        bytes=dict(alphabet="ESC [ ] ( m K ; : 0 1 3 8 a BS SO LF BEL \\ 0xC3 0xA9", max_len=c.pick(5, 6)),
+        osc_bytes=dict(prefix="ESC ]", alphabet="0 8 ; : a SP ESC \\ BEL LF BS 0xC3", max_len_after_prefix=c.pick(6, 7)),
         grammar=dict(text_chunks="<= 3 of 'éa' ' ' 'aé ' 'é' (fixed per gap)", sequences_per_line="<= 3",
                      catalogue="61 SGR forms of every parameter class (single, 256-colour, 24-bit, colon forms, combined) + 18 other well-formed "
                                "sequences (CSI K/0K/2J/?25l/1;1H, OSC 8 open/close with BEL and ST, OSC 0/2, ESC c, ESC ( B, ESC ) B, SI, SO, x BS, é BS)",
@@ -27,6 +27,8 @@ def run(c, replay):
     ]
     if replay:
         import json
+        import os
+        replay = os.path.abspath(replay)
         layer = json.load(open(replay)).get("layer", "bytes")
         c.run_layer(b, LAYERS.get(layer, LAYERS["bytes"]), layer, replay=replay, deadline_s=120)
         return
